@@ -91,6 +91,12 @@ def table_edges(facts, roles):
         sig = re.sub(r"\s*\{.*\}$", "", sig)
         return re.sub(r"\s+", "", sig)
     sigs = {k: norm(facts.items.get(k, {}).get("sig")) for k in allfns}
+    for k in allfns:
+        cb = facts.body(k)
+        if not sigs[k] and cb is not None and cb.kind == "closure":
+            # a closure stored as a function pointer: its pointer type is (parameters after the environment) -> result
+            ps = [cb.local_ty(l) for l in range(2, cb.arg_count + 1)]
+            sigs[k] = norm("fn(%s) -> %s" % (", ".join(ps), cb.local_ty(0)))
     for b in facts.fns():
         for _, t in b.calls():
             if callee_of(t) is not None:
